@@ -99,16 +99,22 @@ func runC10(c *Ctx) Info {
 	// ---- 2. CARRY ---------------------------------------------------------------------------
 	carryInfo := c.carryRule(e)
 
+	// ---- 2b. OUTPUT-VIEW: the frame handed over may not live in a buffer the next iteration rewrites
+	nViews := c.outputViewRule(e)
+	c.C.Floor("OUTPUT-VIEW", nViews-c.controlCount("OUTPUT-VIEW"), 15)
+	c.C.ExpectControl("OUTPUT-VIEW")
+
 	// ---- 5. FLOWS-CONTAINER -----------------------------------------------------------------
 	c.flowsContainerRule(e)
 
 	return Info{
-		Explanation:  "Five rule groups, one per sentence of the statement. ORDER-FRAMES: every GetFrame call sits in a counted loop 0..FrameCount()-1 whose cycle executes exactly one AddFrame fed by that iteration's frame, every other exit returning an error. CARRY: for every object that outlives a frame (jpeg2000.Encoder/Decoder and anything a codec allocates outside its frame loop) the fields written during a call and read before being re-assigned in the next one are computed (must-definition analysis with method summaries); accumulate-only or input-conditionally assigned carried fields are violations. INPUT-RO: no write effect (store/copy/append-in-place/sort) on the caller's frame bytes anywhere reachable from an encode/decode entry point (engine E1). DETERMINISM: no time/rand/os/goroutines; every range over a map is order-insensitive. FLOWS-CONTAINER: information-flow necessary condition for the decoded container width to follow BitsAllocated. Decides these structural clauses; byte-equality of lossless round trips is not decided.",
+		Explanation:  "Five rule groups, one per sentence of the statement. ORDER-FRAMES: every GetFrame call sits in a counted loop 0..FrameCount()-1 whose cycle executes exactly one AddFrame fed by that iteration's frame, every other exit returning an error. CARRY: for every object that outlives a frame (jpeg2000.Encoder/Decoder and anything a codec allocates outside its frame loop) the fields written during a call and read before being re-assigned in the next one are computed (must-definition analysis with method summaries); accumulate-only or input-conditionally assigned carried fields are violations. OUTPUT-VIEW: the bytes handed to AddFrame are not a view (followed through slice expressions, locals, helper results and out-parameters; append / copy / Clone end a view) of a buffer field of an object defined outside the frame loop that a call inside the loop mutates in place. INPUT-RO: no write effect (store/copy/append-in-place/sort) on the caller's frame bytes anywhere reachable from an encode/decode entry point (engine E1). DETERMINISM: no time/rand/os/goroutines; every range over a map is order-insensitive. FLOWS-CONTAINER: information-flow necessary condition for the decoded container width to follow BitsAllocated. Decides these structural clauses; byte-equality of lossless round trips is not decided.",
 		DoesNotCover: "'for the lossless transfer syntaxes those bytes equal the source frame' (C01-C06); byte-identical output beyond absence of nondeterminism sources; floating-point determinism across architectures",
 		Trusted:      append([]string{"frozen effect table for standard-library callees (pta/summaries.go)"}, commonTrusted...),
 		Extra: map[string]any{
 			"effects_total": len(a.Effects),
 			"frame_loops":   nLoops,
+			"addframe_sites": nViews,
 			"map_ranges":    nRanges,
 			"carry":         carryInfo,
 		},
